@@ -482,6 +482,23 @@ class Gen:
             out[nv] = hs
         return out
 
+    def build_large(self, limit):
+        """status-bearing replies of every size around the buffering limit (MaxBufferedPayloadSz, read from the package): the
+        LLRPStatus followed by Custom parameters as padding, sent completely. (exp, code, desc, fe, pe, mode, total payload bytes).
+        Only response types that end in a list of Custom parameters can be that large and well-formed (an ERROR_MESSAGE cannot:
+        its only parameter is the LLRPStatus, at most 65535 bytes)."""
+        rnd, out = self.rnd, []
+        sizes = list(range(limit - 24, limit + 3)) + [limit // 2, limit - 4096, limit - 1000, limit + 11, limit + 4096, 2 * limit]
+        if self.thorough:
+            sizes += list(range(limit - 300, limit - 24, 7)) + [65536, 65535 + 8, 131072]
+        for e in (12, 11):
+            for total in sizes:
+                for c, d_, f_, p_ in ((0, "-", "-", "-"), (rnd.choice([100, 101, 201, 401]), "6f6f7073", "2.300", "137.201.1.301"), (rnd.randrange(1, 65536), "-", "-", "-")):
+                    if e == 11 and c != 0 and d_ == "-" and not self.thorough:
+                        continue
+                    out.append((e, c, d_, f_, p_, "z", total))
+        return out
+
     def build_cuts(self):
         """the awaited reply does not arrive completely: the frame header announces the whole payload, the connection ends after
         `cut` bytes of it — at EVERY offset (inside the LLRPStatus header, the code, the description, nested FieldError /
@@ -748,6 +765,7 @@ def run(tier, seed, replay=None):
         undec = [tuple(c[1:4]) for c in rp.get("cases", []) if len(c) == 4 and c[0] == "y"]
         drv = [tuple(c[1:]) for c in rp.get("cases", []) if len(c) >= 7 and c[0] == "d"]
         cuts = [tuple(c[1:]) for c in rp.get("cases", []) if len(c) == 10 and c[0] == "k"] * 12
+        large = [tuple(c[1:]) for c in rp.get("cases", []) if len(c) == 8 and c[0] == "L"]
         hists = {}
         for c in rp.get("cases", []):
             if len(c) == 3 and c[0] == "h":
@@ -767,6 +785,7 @@ def run(tier, seed, replay=None):
         hists = gen.build_histories()
         drv = gen.build_driver()
         cuts = gen.build_cuts()
+        large = None
         do_dt = True
 
     fails = {}            # signature -> [count, text, found_input, [cases]]
@@ -1088,6 +1107,71 @@ def run(tier, seed, replay=None):
                         fail("model-differs:history", what + ", abandoned before any reply to it arrived: Go [%s], model [%s]" % (ans[:300], m[:300]),
                              False, rcase, g[:600], o[:300])
 
+    # replies of every size around the buffering limit, sent completely: within the limit the exchange behaves as for any reply
+    # (success iff Success, otherwise the status exposed — never a decode error); beyond it, an error (C10's clause)
+    large_stats = dict(exchanges=0)
+    rc, gl, glog = vlib.run_harness(exe, "TestVerifC12", "limit\n", timeout=120, tag="lim")
+    limit = int(gl[0].split()[1]) if rc == 0 and len(gl) == 1 and gl[0].startswith("limit ") else None
+    if limit is None:
+        res.violation("harness-run", "Go harness did not answer the limit request: %s" % glog[-800:], dict(kind="harness"), False)
+        return res.finish()
+    if large is None:
+        large = Gen(seed ^ 0x1A26E, thorough, stypes).build_large(limit)
+    if large:
+        greq = ["L %d %d %s %s %s %s %d" % c for c in large]
+        rc, gl, glog = vlib.run_harness(exe, "TestVerifC12", "cfg none\nnv 1\n" + "\n".join(greq) + "\n", timeout=1200, tag="L")
+        gl = gl[2:]
+        orc, oout = vlib.run_oracle("c12", "\n".join("x %d %d %d %s %s %s" % ((c[0], c[0]) + tuple(c[1:5])) for c in large) + "\n", timeout=600)
+        ol = oout.split("\n")
+        if rc != 0 or len(gl) != len(large) or orc != 0 or len(ol) < len(large):
+            res.violation("harness-run", "Go harness / oracle failed on the large replies (rc=%s/%s, %d of %d answers): %s" % (
+                rc, orc, len(gl), len(large), glog[-1500:]), dict(kind="harness", log=glog[-3000:]), False)
+            return res.finish()
+        large_stats.update(limit=limit, sizes=sorted({c[6] for c in large})[:60])
+        szs = sorted({c[6] for c in large})
+        lrc, lout = vlib.run_oracle("c12", "\n".join("lim %d" % z for z in szs) + "\n", timeout=600)
+        lans = dict(zip(szs, [x.split() for x in lout.split("\n") if x]))
+        if lrc != 0 or len(lans) != len(szs):
+            res.violation("harness-run", "oracle failed on the limit requests (rc=%s)" % lrc, dict(kind="harness"), False)
+            return res.finish()
+        if int(lans[szs[0]][0]) != limit:
+            res.violation("buffer-limit-differs", "MaxBufferedPayloadSz is %d in the package, %s in the model (Client/StatusLimit.v)" % (limit, lans[szs[0]][0]),
+                          dict(kind="correspondence", correspondence="C12/MaxBufferedPayloadSz", go=limit, model=int(lans[szs[0]][0])), False)
+        for z in szs:
+            if (lans[z][1] == "intact") != (z <= limit):
+                res.violation("model-differs:large-reply:limit", "the model says a %d-byte reply is %s, the package's limit is %d" % (z, lans[z][1], limit),
+                              dict(kind="correspondence", correspondence="C12/reply_bytes", size=z), False)
+        for c, g, o in zip(large, gl, ol):
+            e, code, d, f, p, mode, total = c
+            gt = g.split(" ")
+            case = ["L"] + list(c)
+            evals += 1
+            nontriv += 1
+            large_stats["exchanges"] += 1
+            where = "within" if total <= limit else "beyond"
+            dist["large-reply:" + where] = dist.get("large-reply:" + where, 0) + 1
+            scripted = "%d %s %s %s" % (code, d, f, p)
+            what = "SendFor expecting type %d; the reply of type %d carries status [%s] and Custom parameters up to a payload of %d bytes (buffering limit %d%+d), sent completely" % (
+                e, e, scripted[:200], total, limit, total - limit)
+            if len(gt) != 13:
+                fail("harness-answer", "unexpected harness answer: " + g[:200], False, case, g[:300], o[:300])
+            elif gt[0] == "skipped":
+                fail("harness-skipped", "exchanges not run because earlier ones timed out or panicked", False, case, g, o[:300])
+            elif total > limit:
+                if gt[0] in ("nil", "panic", "timeout"):
+                    fail("large-reply:beyond-limit:" + ("reported-as-success" if gt[0] == "nil" else "no-outcome:" + gt[0]),
+                         what + ": a reply too large to buffer must be reported as an error; observed %s" % gt[0], True, case, g[:300], o[:300])
+                elif gt[0] != "other" or gt[5] != "same":
+                    fail("model-differs:large-reply:beyond", what + ": Go [%s]" % g[:300], False, case, g[:300], o[:300])
+            else:
+                bad = prop_check(e, e, code, scripted, gt) or render_check("expected", gt)
+                if bad:
+                    fail("large-reply:" + bad[0], what + ": " + bad[1] + "; Go returned [%s]" % g[:300], True, case, g[:300], o[:300])
+                    continue
+                merr, msame, min_ = model_expect(o, "z")
+                if " ".join(gt[0:5]) != merr or (min_ and " ".join(gt[6:10]) != min_):
+                    fail("model-differs:large-reply:within", what + ": Go [%s] differs from the model [%s]" % (g[:300], o[:300]), False, case, g[:300], o[:300])
+
     # replies that do not arrive completely: such an exchange has no reply — it must not report success for a reply that carried a
     # failure, and must not expose a status / description / details the reader did not send
     cut_stats = dict(exchanges=0, by_end={}, outcomes={})
@@ -1310,7 +1394,8 @@ def run(tier, seed, replay=None):
                                        "flags) frame written by the reader; ['d', t|r|w|o, ...] = exchange of the device service (internal/driver): t = LLRPDevice.TrySend "
                                        "[exp, act, status...], r / w = Driver.HandleReadCommands / HandleWriteCommands [resource or command, exp, act, status...], "
                                        "o = the device's own exchange after connecting [act, status...]; mode letter D = the reader drops the connection once first; "
-                                       "['k', exp, act, code, desc, fe, pe, mode, cut, eof|reset|deadline] = the reply is cut after `cut` payload bytes and the connection ends"),
+                                       "['k', exp, act, code, desc, fe, pe, mode, cut, eof|reset|deadline] = the reply is cut after `cut` payload bytes and the connection ends; "
+                                       "['L', exp, code, desc, fe, pe, mode, total] = reply of the expected type padded with Custom parameters to a payload of `total` bytes"),
                       found)
 
     res.coverage.update(
@@ -1330,7 +1415,7 @@ def run(tier, seed, replay=None):
         exhaustive=bool(thorough), exhaustive_note="thorough: 65536 codes x 19 status-bearing types x {expected, ERROR_MESSAGE}; "
                                                    "descriptions and nested shapes are sampled (unbounded space; covered by the proof)",
         reader_initiated_frames=unsol_seen, concurrent=conc_seen, handler_configurations=cfg_stats, rendering=render_stats,
-        status_code_texts=dt_stats, internal_exchanges=int_stats, undecodable_replies=undec_stats, cut_replies=cut_stats, exchange_histories=hist_stats, device_service_exchanges=drv_stats,
+        status_code_texts=dt_stats, internal_exchanges=int_stats, undecodable_replies=undec_stats, cut_replies=cut_stats, large_replies=large_stats, exchange_histories=hist_stats, device_service_exchanges=drv_stats,
         header_versions="all 8 values of the reply's header version x 4 ways of negotiating the connection's version, on the expected / "
                         "ERROR_MESSAGE / unrelated-type branches (kind 'versions'), on Connect's and Shutdown's own exchanges, in the concurrent rounds and "
                         "in every frame of the exchange histories", type_pairs=len(seen_pairs), status_types=stypes, max_nested_depth=seen_depth, max_description_bytes=seen_desc_len,
